@@ -466,7 +466,7 @@ func (p *vpIdP) writeTokens(rw http.ResponseWriter, kind string, lid string, lin
 	p.atIndex[at] = lin.User
 	now := time.Now()
 	claims := map[string]interface{}{
-		"iss": p.issuer(), "sub": u.Sub, "aud": vpClientID,
+		"iss": p.issuer(), "sub": u.Sub, "aud": vpClientID, "azp": vpClientID,
 		"iat": now.Unix(), "exp": now.Add(time.Duration(p.idTokenTTL) * time.Second).Unix(),
 		"email": u.Email, "email_verified": true,
 		"vp_gen": lin.Gen, "vp_lineage": lid,
@@ -539,7 +539,7 @@ func (p *vpIdP) mintIDToken(user string, mut func(c map[string]interface{}), alg
 	u := p.user(user)
 	now := time.Now()
 	claims := map[string]interface{}{
-		"iss": p.issuer(), "sub": u.Sub, "aud": vpClientID,
+		"iss": p.issuer(), "sub": u.Sub, "aud": vpClientID, "azp": vpClientID,
 		"iat": now.Unix(), "exp": now.Add(time.Hour).Unix(),
 		"email": u.Email, "email_verified": true,
 	}
@@ -581,7 +581,11 @@ func (p *vpIdP) hUserinfo(rw http.ResponseWriter, r *http.Request) {
 	out := map[string]interface{}{"sub": u.Sub, "email": u.Email, "email_verified": true, "preferred_username": u.Username, "groups": u.Groups,
 		"profile_only": "from-profile"}
 	for k, v := range p.userinfoClaims {
-		out[k] = v
+		if v == nil {
+			delete(out, k)
+		} else {
+			out[k] = v
+		}
 	}
 	rw.Header().Set("Content-Type", "application/json")
 	json.NewEncoder(rw).Encode(out)
